@@ -16,7 +16,7 @@ use shared::triple::Triple;
 pub const DEF: PropDef = PropDef {
     id: "C17",
     level: "exploration",
-    rule: "cases = (request text, database state, entry point): request texts are the C16 seed corpus (SELECT forms, the six update forms, legacy INSERT/DELETE aliases, rejected requests, RULE/REGISTER/RETRIEVE/ML.PREDICT extension requests), every single mutation of every seed (delete / insert / substitute 14 special characters incl. multi-byte / truncate, at every offset) and every token string of <=2 (thorough <=3) tokens over the 30-token alphabet; states: empty, default-graph only, named graphs + an empty named graph, quoted triples (quick: each mutation against one of two states, alternating; thorough: all four); entry points execute_sparql_query, execute_sparql_update, SparqlDatabase::execute_update, SparqlDatabase::handle_update and (SELECT texts only) the legacy execute_query_rayon_parallel2_volcano. Oracle: no entry point panics; execute_sparql_query leaves quads + catalog identical for every text and returns Err for every text the parser classifies as an Update; a text the parser classifies as SELECT leaves the dataset unchanged through every entry point and is refused by the update entry points; an update entry point that returns Err / 'Update Failed' leaves the dataset unchanged. Non-trivial = texts accepted by the request parser; distinct by (text, state).",
+    rule: "cases = (request text, database state, entry point): request texts are the C16 seed corpus (SELECT forms, the six update forms, legacy INSERT/DELETE aliases, rejected requests, RULE/REGISTER/RETRIEVE/ML.PREDICT extension requests), every single mutation of every seed (delete / insert / substitute 14 special characters incl. multi-byte / truncate, at every offset) and every token string of <=2 (thorough <=3) tokens over the 30-token alphabet; states: empty, default-graph only, named graphs + an empty named graph, quoted triples (quick: each mutation against one of two states, alternating; thorough: all four); entry points execute_sparql_query, the HTTP query endpoint (SparqlDatabase::handle_http_request with a well-formed POST application/sparql-query and a form-encoded query= body), execute_sparql_update, SparqlDatabase::execute_update, SparqlDatabase::handle_update and (SELECT texts only) the legacy execute_query_rayon_parallel2_volcano. Oracle: no entry point panics; execute_sparql_query and the HTTP query endpoint leave quads + catalog identical for every text and returns Err for every text the parser classifies as an Update; a text the parser classifies as SELECT leaves the dataset unchanged through every entry point and is refused by the update entry points; an update entry point that returns Err / 'Update Failed' leaves the dataset unchanged. Non-trivial = texts accepted by the request parser; distinct by (text, state).",
     assumptions: &[
         "classification of a text as SELECT / Update / malformed is taken from kolibrie::parser::parse_combined_query (whose totality and faithfulness are C16's subject)",
         "each case runs on a fresh database; crash isolation by worker subprocess (a worker killed by a signal is a violation)",
@@ -72,7 +72,27 @@ fn classify(text: &str) -> Kind {
     }
 }
 
-const ENTRIES: [&str; 5] = ["execute_sparql_query", "execute_sparql_update", "SparqlDatabase::execute_update", "SparqlDatabase::handle_update", "legacy_volcano"];
+const ENTRIES: [&str; 7] = [
+    "execute_sparql_query",
+    "execute_sparql_update",
+    "SparqlDatabase::execute_update",
+    "SparqlDatabase::handle_update",
+    "legacy_volcano",
+    "http_post_sparql_query",
+    "http_form_query",
+];
+
+fn percent_encode(text: &str) -> String {
+    let mut o = String::new();
+    for b in text.bytes() {
+        if b.is_ascii_alphanumeric() || matches!(b, b'-' | b'_' | b'.' | b'~') {
+            o.push(b as char);
+        } else {
+            o.push_str(&format!("%{:02X}", b));
+        }
+    }
+    o
+}
 
 /// returns failures (symptom, detail, entry)
 fn check_case(text: &str, state_idx: usize, kind: Kind) -> Vec<(&'static str, String, &'static str)> {
@@ -90,6 +110,11 @@ fn check_case(text: &str, state_idx: usize, kind: Kind) -> Vec<(&'static str, St
             "execute_sparql_update" => execute_sparql_update(text, &mut db).is_ok(),
             "SparqlDatabase::execute_update" => db.execute_update(text).is_ok(),
             "SparqlDatabase::handle_update" => db.handle_update(text) != "Update Failed",
+            // the HTTP query endpoint: HTTP framing is fixed and well-formed, only the query text varies
+            "http_post_sparql_query" => !db.handle_http_request(&format!("POST /sparql HTTP/1.1\r\nHost: x\r\nContent-Type: application/sparql-query\r\n\r\n{}", text)).starts_with("Query Failed"),
+            "http_form_query" => !db
+                .handle_http_request(&format!("POST /sparql HTTP/1.1\r\nHost: x\r\nContent-Type: application/x-www-form-urlencoded\r\n\r\nquery={}", percent_encode(text)))
+                .starts_with("Query Failed"),
             _ => {
                 let _ = execute_query_rayon_parallel2_volcano(text, &mut db);
                 true
@@ -105,7 +130,7 @@ fn check_case(text: &str, state_idx: usize, kind: Kind) -> Vec<(&'static str, St
         let after = extract(&db);
         let changed = after != before;
         match entry {
-            "execute_sparql_query" => {
+            "execute_sparql_query" | "http_post_sparql_query" | "http_form_query" => {
                 if changed {
                     fails.push(("query_entry_point_modified_data", format!("{:?}\n  before {:?}\n  after  {:?}", text, before, after), entry));
                 }
